@@ -19,7 +19,7 @@ MUT = [
     ("pad-strip-wrong-byte", ["C01"], "kernel/multi_aes/multi_buffergroup.cpp", "b[now - 1][15]", "b[now - 1][14]", 1),
     ("tag-range-skips-ivs", ["C02", "C05"], "kernel/cry.cpp", None, None, 1),
     ("tag-compare-one-byte-short", ["C08", "C05"], "kernel/fheader.cpp", "    for (int i = 0; i < length; ++i)\n        if (hmac_out[i] != hmac_res[i])", "    for (int i = 0; i < length - 1; ++i)\n        if (hmac_out[i] != hmac_res[i])", 1),
-    ("ctr-increments-last-byte-only", ["C10", "C02"], "kernel/multi_aes/aes/aesmode.cpp", "    for (int i = 15; i >= 0; i--)\n    {\n      iv[i]++;\n      if (iv[i] != 0)\n        break;\n    }", "    iv[15]++;", 1),
+    ("ctr-increments-last-byte-only", ["C10"], "kernel/multi_aes/aes/aesmode.cpp", "    for (int i = 15; i >= 0; i--)\n    {\n      iv[i]++;\n      if (iv[i] != 0)\n        break;\n    }", "    iv[15]++;", 1),
     ("sha1-threshold-56-to-57", ["C07"], "kernel/hash/sha1.cpp", "  if (final_loadsize >= 56)", "  if (final_loadsize > 56)", 1),
     ("md5-length-counts-extra-block", ["C07", "C08"], "kernel/hash/md5.cpp", "(u8_t)((msgbits >> (i << 3)));", "(u8_t)((totalsize >> (i << 3)));", 1),
     ("refill-loses-tail-at-boundary", ["C07", "C08"], "kernel/hash/hashbuffer.cpp", "  if (now == total)\n    tail = 0;\n", "  if (now >= total)\n    tail = 0;\n  load_size = (now > total) ? 0 : load_size;\n", 0),   # equivalent mutant: must stay green
